@@ -85,3 +85,25 @@ CLAIMED['C14'] = (
     'converted circuit is passed through the Lean well-formedness checker.',
     NOTE_COMMON + 'Users index / acyclicity / block membership after conversion: exact correspondence + checkWFU, not proved (partial).',
     'Lean 4 proof (per-rewrite semantic lemma + fold invariant over the snapshot iteration) + exact correspondence incl. users index')
+CLAIMED['C02'] = (
+    'DESIGN.md 5/C02',
+    'Invariant by induction over operations (no bound on history length): the full C02 state predicate WFS (operands/outputs exist, '
+    'users index = inverse operand multiset, input list = INPUT gates each once, acyclic by a rank, block labels exist) holds for the '
+    'empty circuit and is preserved by add_gate/emplace_gate, add_inputs, mark_as_output, set_outputs, set_inputs, order_inputs, '
+    'order_outputs, replace_inputs, make_block, delete_block; hence by every finite history of them, after which both topological '
+    'iterations yield every gate once in dependency order (C20). All other mutators (remove/rename, blocks removal and slices, '
+    'connect_circuit both directions, replace_subcircuit, into_bench, copy) are modelled one-to-one and compared field by field with '
+    'the code after every call of random histories; every state the code produces goes through the Lean checker checkWFU.',
+    NOTE_COMMON + 'Invariant lemmas for remove_gate, rename_gate, connect_circuit, replace_subcircuit, into_bench(users), copy are not '
+    'proved yet (partial). Aliasing clause of copy: correspondence-only.',
+    'Lean 4 proof (state invariant by induction over operation histories; users-multiset lemmas) + per-call correspondence of histories')
+CLAIMED['C19'] = (
+    'DESIGN.md 5/C19',
+    'Theorems: replace_inputs yields exactly the cofactor (any valuation of the original under t->True,f->False is a valuation of the '
+    'result under every assignment of the remaining inputs; remaining inputs = originals minus t,f as a sublist; outputs unchanged; '
+    'invariant WFS kept); remove_gate succeeds only for an existing gate without users and removes it from gate map, outputs and '
+    'blocks, with the exact error class otherwise. rename_gate and replace_subcircuit are modelled one-to-one and compared with the '
+    'code on every gate / many cut-bounded slices (identical, renamed, re-expressed, incomplete mappings), with truth-table and '
+    'checkWFU oracles.',
+    NOTE_COMMON + 'rename_gate and replace_subcircuit theorems not proved yet (partial).',
+    'Lean 4 proof (fold invariant for replace_inputs, field characterisation for remove_gate) + exact correspondence')
